@@ -136,6 +136,7 @@ def finish(res, tier, seed, level, t0, checker_cmd, explanation=""):
             violations.append(("bounded", c.check, c.sig, c.detail, c.payload, None))
 
     # ---- obligations
+    unsup_funcs = {o.function for o in res.obs if o.clause.startswith("within-supported-subset") and o.status != "discharged"}
     ids_now = set()
     for o in res.obs:
         ids_now.add(o.id)
@@ -146,6 +147,15 @@ def finish(res, tier, seed, level, t0, checker_cmd, explanation=""):
             known_hits.append((f, o))
             continue
         refuted = [c for c in res.cases if not c.ok and c.sig.get("obligation_ref") == o.id]
+        # an obligation that is UNDECIDED because the code left the modelled subset (Unsupported, solver unknown) is a tool
+        # limit, not a refutation: it never becomes a violation by itself, proved before or not.  Guards that fail only because no
+        # traced path returned while a sibling "within-supported-subset" obligation is open are treated the same way.
+        guard = ("vacuity guard" in (o.detail or "") or "vacuity guard" in o.clause or o.clause.startswith("has-returning-path")
+                 or o.clause.startswith("has a ") or "path exists" in o.clause)
+        if o.status == "undecided" or (o.status == "failed" and guard and o.function in unsup_funcs):
+            if not [c for c in res.cases if not c.ok and not match_known(prop, c.sig, known)]:
+                undecided.append(f"obligation {o.id} undecided (tool limit): {o.detail[:200]}")
+                continue
         if o.status == "failed" or o.id in base_proved:
             # a failing obligation is reported as a violation only with a real failing input, or
             # when it is proved in the committed baseline and now is not
